@@ -29,13 +29,14 @@ theorem c06_on_source (max : Nat) (cores : List Nat) (sched : List Nat) (s : St)
 
 
 
+
 -- BEGIN PINS (written by bin/mkpins; do not edit by hand)
 /-- the Go functions this property's model and obligations were written against have exactly the
 pinned skeletons (SHA-256 prefix of the atom list) -/
 theorem pinned_skeletons_c06 :
     pinsOk
     [("Scipipe.#decls", "08e57e98702ecd70"),
-     ("Scipipe.Process_Run", "05880ea16e590fb1"),
+     ("Scipipe.Process_Run", "40f832903317f455"),
      ("Scipipe.Task_Execute", "40fd1fec0c69deb2"),
      ("Scipipe.Workflow_DecConcurrentTasks", "2862c41bbe9893c5"),
      ("Scipipe.Workflow_IncConcurrentTasks", "acd0e561d4db6cb8"),
